@@ -133,6 +133,12 @@ def cases(rng, thorough):
         out.append(("rolling_sum", "stats", "gu", (big, float(n // 2), -3000.0), "n=%d near int16 max window n/2" % n, [("float32", (n,))]))
         out.append(("autocorr_1d_int", "autocorr", "njit", (big, -3000), "n=%d near int16 max" % n))
         out.append(("mk_score", "stats", "njit", (big[:600],), "n=600 near int16 max"))
+    # wide integers near the top of int32: the sums of products leave 64 bits; the compiled kernel wraps them and so must its source
+    # (arithmetic in numpy's int64, not in unbounded Python integers)
+    for n in (4, 9, 30):
+        wide = rng.integers(1_000_000_000, 2_147_483_000, size=n).astype("int32")
+        out.append(("autocorr_1d_int", "autocorr", "njit", (wide, -3000), "n=%d near int32 max" % n))
+        out.append(("autocorr_1d_int", "autocorr", "njit", (wide.astype("int64"), -3000), "n=%d near int32 max, int64" % n))
     # cubes
     for (r, c, t) in [(1, 1, 2), (1, 1, 5), (2, 3, 6), (1, 4, 12)] + ([(3, 2, 30)] if thorough else []):
         cube = np.round(rng.gamma(2.0, 50.0, size=(r, c, t)))
